@@ -683,6 +683,28 @@ func ruleC05Sentinel(r *Run) {
 			}
 		}
 	}
+	if !okCP {
+		// parked through one of the abort functions applied to the copy itself
+		parkers := abortFns(w)
+		retVals := map[ssa.Value]bool{}
+		eachInstr(cp, func(in ssa.Instruction) {
+			if ret, ok := in.(*ssa.Return); ok && len(ret.Results) == 1 {
+				for _, lf := range valueLeaves(ret.Results[0]) {
+					retVals[lf] = true
+				}
+			}
+		})
+		if okAll, _ := allPathsHit(cp, nil, func(x ssa.Instruction) bool {
+			c, ok := x.(*ssa.Call)
+			if !ok {
+				return false
+			}
+			sc := staticCallee(c)
+			return sc != nil && parkers[sc] && len(c.Call.Args) > 0 && retVals[c.Call.Args[0]]
+		}); okAll && len(retVals) > 0 {
+			okCP = true
+		}
+	}
 	r.Check(rule, "(*Context).Copy:parked", cp.Pos(), okCP, "a copied context cannot run handlers")
 	// one sentinel: the executor's bound and the sentinel leave room: int8 conversion of len(handlers) is safe only under the limit (C05-LIMIT)
 }
